@@ -1,0 +1,24 @@
+//go:build verif
+
+package stdlib
+
+import "github.com/go-python/gpython/py"
+
+// VerifYield, when set, is called at every lifecycle scheduling point of a
+// context, before the shared-state access the point names. It may block, which
+// lets a controlling scheduler enumerate interleavings deterministically.
+var VerifYield func(ctx py.Context, point string)
+
+func (ctx *context) verifYield(point string) {
+	if f := VerifYield; f != nil {
+		f(ctx, point)
+	}
+}
+
+// VerifLifecycle returns the lifecycle state of a context created by NewContext.
+func VerifLifecycle(c py.Context) (closing, closed bool, running int) {
+	ctx := c.(*context)
+	ctx.mu.Lock()
+	defer ctx.mu.Unlock()
+	return ctx.closing, ctx.closed, ctx.running
+}
